@@ -237,6 +237,10 @@ fn recognise(s: &[Sym]) -> Verdict {
                             }
                         }
                         1 => {
+                            // an operator that needs an operand, directly followed by the end, a `,`, another operator or `<<<`
+                            if !member && (pos == n || matches!(s[pos], Sym::Comma | Sym::Op(_) | Sym::Unwrap)) && !matches!(s.get(pos), Some(Sym::Op(3))) {
+                                return Verdict::Invalid("E8 operator without its operand");
+                            }
                             if pos == n || !is_operand(s[pos]) {
                                 return Verdict::Unsure;
                             }
@@ -250,6 +254,11 @@ fn recognise(s: &[Sym]) -> Verdict {
                             if pos + 2 < n + 0 && is_operand(s[pos]) && s[pos + 1] == Sym::Comma && is_operand(s[pos + 2]) {
                                 last_block = s[pos + 2] == Sym::Blk;
                                 pos += 3;
+                            } else if pos < n && is_operand(s[pos]) && (pos + 1 == n || matches!(s[pos + 1], Sym::Op(_) | Sym::Unwrap)) && !matches!(s.get(pos + 1), Some(Sym::Op(3))) {
+                                // the first operand is followed by something else than the separating `,`
+                                return Verdict::Invalid("E8 two-operand operator without its second operand");
+                            } else if pos + 1 < n && is_operand(s[pos]) && s[pos + 1] == Sym::Comma && (pos + 2 == n || matches!(s[pos + 2], Sym::Comma | Sym::Unwrap)) {
+                                return Verdict::Invalid("E8 two-operand operator without its second operand");
                             } else {
                                 return Verdict::Unsure;
                             }
@@ -346,6 +355,9 @@ pub fn run(args: &[String]) {
     // args: <alphabet: std|full|opts> <max len> <configs comma separated> [threads]   |   lets <configs>
     if args[0] == "lets" {
         return run_lets(&args[1..]);
+    }
+    if args[0] == "mid" {
+        return run_mid(&args[1..]);
     }
     let kind = args[0].clone();
     let maxlen: usize = args[1].parse().unwrap();
@@ -494,6 +506,67 @@ pub fn run(args: &[String]) {
 
 /// `c15 lets`: depth profiles x every assignment of a `let` form (none, `let n`, `let mut n`, `let ref n`) to the branches x
 /// with/without handler, in the given configs: the output must be a syntactically valid expression (never a panic).
+/// Every operator (plain, `~`-deferred, as wrapper opener, and `<<<`) written between an operand of a multi-operand operator
+/// (`^@ init, f`, `?^@ init, f`, `<-> A, B, C, D`) and the `,` that separates it from the next operand: the operator has no operand of
+/// its own there, so the input is structurally invalid and must be REJECTED (never accepted with the operator silently dropped).
+pub fn run_mid(args: &[String]) {
+    let cfgs: Vec<usize> = args[0].split(',').map(|c| config_by_name(c).expect("config")).collect();
+    let t0 = std::time::Instant::now();
+    let bases = ["x ^@ x {} , x", "x ?^@ x {} , x", "x <-> x {} , x , x , x", "x <-> x , x {} , x , x", "x <-> x , x , x {} , x", "x |> >>> ^@ x {} , x <<< |> x"];
+    let tails = ["", " |> x", " , x", " ~=> x"];
+    let mut ins: Vec<String> = vec!["<<<".to_string(), "~ <<<".to_string()];
+    for (op, _, wrapper, _) in OPS.iter() {
+        ins.push(op.to_string());
+        ins.push(format!("~ {}", op));
+        if *wrapper {
+            ins.push(format!("{} >>>", op));
+        }
+    }
+    let (mut n, mut nviol) = (0u64, 0u64);
+    let mut viols: Vec<String> = vec![];
+    let mut samples: Vec<String> = vec![];
+    // control: the same inputs WITHOUT the inserted operator are accepted (the bases are well formed)
+    for base in bases.iter() {
+        for &cfg in &cfgs {
+            let txt = base.replace("{} ", "");
+            n += 1;
+            if !matches!(expand_str(&txt, cfg), Outcome::Ok(_)) {
+                nviol += 1;
+                viols.push(format!("{{\"input\":{},\"config\":{},\"what\":\"MACHINERY: control input (no inserted operator) is not accepted\",\"outcome\":\"\"}}", jesc(&txt), jesc(CONFIG_NAMES[cfg])));
+            }
+        }
+    }
+    for base in bases.iter() {
+        for i in ins.iter() {
+            for tail in tails.iter() {
+                for &cfg in &cfgs {
+                    let txt = format!("{}{}", base.replace("{}", i), tail);
+                    let out = expand_str(&txt, cfg);
+                    n += 1;
+                    let bad = match &out {
+                        Outcome::Ok(_) => Some("structurally invalid input (an operator without operand between the operands of a multi-operand operator) was accepted silently".to_string()),
+                        Outcome::InvalidOutput(o) => Some(format!("accepted and the output is not a syntactically valid expression: {}", &o[..o.len().min(200)])),
+                        Outcome::Panic(m) => Some(format!("internal panic instead of a diagnostic: {}", m)),
+                        _ => None,
+                    };
+                    if let Some(b) = bad {
+                        nviol += 1;
+                        if viols.len() < 8 {
+                            viols.push(format!("{{\"input\":{},\"config\":{},\"what\":{},\"outcome\":{}}}", jesc(&txt), jesc(CONFIG_NAMES[cfg]), jesc(&b), jesc(out.class())));
+                        }
+                    } else if samples.len() < 2 && n % 977 == 7 {
+                        samples.push(format!("{{\"input\":{},\"config\":{}}}", jesc(&txt), jesc(CONFIG_NAMES[cfg])));
+                    }
+                }
+            }
+        }
+    }
+    println!(
+        "{{\"mode\":\"c15mid\",\"sequences\":{},\"expansions\":{},\"nviol\":{},\"viols\":[{}],\"classes\":[],\"samples\":[{}],\"secs\":{:.1}}}",
+        n, n, nviol, viols.join(","), samples.join(","), t0.elapsed().as_secs_f64()
+    );
+}
+
 pub fn run_lets(args: &[String]) {
     let all: Vec<usize> = args[0].split(',').map(|c| config_by_name(c).expect("config")).collect();
     if all.len() > 1 {
